@@ -181,6 +181,12 @@ var vhC04Places = []vhC04Place{
 	{"import", "{% macro m(x, y) %}", "{% endmacro %}", 3, false},
 	{"apply", "{% apply upper %}", "{% endapply %}", 0, true},
 	{"for-else", "{% for i in [] %}{% else %}", "{% endfor %}", 0, false},
+	// literal text directly before / after the unit inside the construct (adjacent text must not fuse with it)
+	{"macro-text-before", "{% macro m(x, y) %}T:", "{% endmacro %}{{ m('ARG', 'ARG2') }}", 4, false},
+	{"macro-text-around", "{% macro m(x, y) %}T:", ":U{% endmacro %}{{ m('ARG', 'ARG2') }}", 5, false},
+	{"import-text-before", "{% macro m(x, y) %}T:", "{% endmacro %}", 6, false},
+	{"if-text-before", "{% if 1 %}T:", "{% endif %}", 4, false},
+	{"block-text-around", "{% block b %}T:", ":U{% endblock %}", 5, false},
 }
 
 func vhUpperASCII(s string) string {
@@ -246,9 +252,19 @@ func VH_C04_Placement() {
 	case 2:
 		err = e.RegisterString("t", p.pre+"<"+unit+">"+p.suf)
 		want = "[" + ref + "]"
-	case 3:
+	case 3, 6:
 		e.RegisterString("lib", p.pre+unit+p.suf)
 		err = e.RegisterString("t", "{% import 'lib' as l %}<{{ l.m('ARG', 'ARG2') }}>")
+	case 4, 5:
+		err = e.RegisterString("t", "<"+p.pre+unit+p.suf+">")
+	}
+	if p.lib >= 4 {
+		// ref is "<" + unit output + ">"
+		want = "<T:" + ref[1:len(ref)-1]
+		if p.lib == 5 {
+			want += ":U"
+		}
+		want += ">"
 	}
 	if p.upper {
 		want = vhUpperASCII(ref)
